@@ -114,6 +114,32 @@ pub fn run_c16(cx: &Ctx) -> i32 {
                             if c.get(0).is_none() {
                                 return Err("get(0) is None on a successful search".into());
                             }
+                            // the iterator protocol: exactly len() items however it is driven
+                            if c.iter().count() != c.len() {
+                                return Err(format!("iter().count() = {} but len() = {}", c.iter().count(), c.len()));
+                            }
+                            let mut it2 = c.iter();
+                            if it2.nth(c.len()).is_some() {
+                                return Err(format!("iter().nth({}) is Some although len() = {}", c.len(), c.len()));
+                            }
+                            if it2.next().is_some() {
+                                return Err("iter() yields an item after nth() went past the end".into());
+                            }
+                            let mut it3 = c.iter();
+                            for _ in 0..c.len() {
+                                it3.next();
+                            }
+                            if it3.next().is_some() || it3.next().is_some() {
+                                return Err("iter() yields an item after len() items".into());
+                            }
+                            let sk: Vec<Option<(usize, usize)>> = c.iter().skip(1).map(|m| m.map(|m| (m.start(), m.end()))).collect();
+                            if sk[..] != it[1..] {
+                                return Err(format!("iter().skip(1) yields {:?}, iter() yields {:?}", sk, it));
+                            }
+                            let (lo, hi) = c.iter().size_hint();
+                            if lo > c.len() || hi.map_or(false, |h| h < c.len()) {
+                                return Err(format!("iter().size_hint() = ({}, {:?}) but len() = {}", lo, hi, c.len()));
+                            }
                             // every index >= len: the next three, and the indices at which a
                                 // slot computation (2i, 2i+1) wraps or overflows
                                 let big = [usize::MAX, usize::MAX - 1, usize::MAX / 2, usize::MAX / 2 + 1, usize::MAX / 2 + 2, 1usize << 62, (1usize << 63) + c.len(), u32::MAX as usize, u32::MAX as usize + 1, (1usize << 31) + 1];
@@ -154,7 +180,7 @@ pub fn run_c16(cx: &Ctx) -> i32 {
         t,
         Finish {
             rule: format!(
-                "every pattern of {} in which every capture group is independently unnamed / (?<n>..) / (?P<n>..) (all-named spellings for patterns with references) x every text over {:?} up to length {} x every offset; oracle: harness-side group count and name->index map versus captures_len, capture_names (length, each name at its index, None elsewhere) and, for every successful search, Captures::len == captures_len, iter() yields len() items equal to get(i), name(n) == get(index of n), get(0) is Some, get(i >= len) is None; both engine classes occur (counters); non-trivial = successful searches of patterns with at least one group",
+                "every pattern of {} in which every capture group is independently unnamed / (?<n>..) / (?P<n>..) (all-named spellings for patterns with references) x every text over {:?} up to length {} x every offset; oracle: harness-side group count and name->index map versus captures_len, capture_names (length, each name at its index, None elsewhere) and, for every successful search, Captures::len == captures_len, iter() yields len() items equal to get(i) (also through count, nth past the end followed by next, skip, size_hint), name(n) == get(index of n), get(0) is Some, get(i >= len) is None; both engine classes occur (counters); non-trivial = successful searches of patterns with at least one group",
                 space.describe(), alphabet, max_len
             ),
             exhaustive: true,
@@ -238,7 +264,7 @@ fn host_expected(host: &str, s: &str, text: &str) -> Option<(usize, usize)> {
 pub fn run_c17(cx: &Ctx) -> i32 {
     let meta: Vec<char> = "\\.+*?()|[]{}^$#".chars().collect();
     let mut alphabet = meta.clone();
-    alphabet.extend(['a', '0', ' ', '\t', 'é', '€', '😀', '-', '&', '~']);
+    alphabet.extend(['a', '0', ' ', '\t', 'é', '€', '😀', '-', '&', '~', 'à', '\u{a0}']);
     let max_len = if cx.quick() { 3 } else { 5 };
     let mut strings = space::texts(&alphabet, max_len);
     // long strings: an ASCII stretch of every length up to 70, a multi-byte character, then special
@@ -342,7 +368,7 @@ pub fn run_c17(cx: &Ctx) -> i32 {
         t,
         Finish {
             rule: format!(
-                "all {} strings: every string of length <= {} over the 15 regex meta-characters plus [a,0,space,tab,e-acute,euro,emoji,-,&,~], and 1 065 long strings (an ASCII stretch of every length 0..70, a multi-byte character, special characters); each escaped string alone and embedded in the hosts {:?}; texts: s, s doubled, x+s+y for x in ['',a,\\,x,e-acute] and y in ['',a,$,y], s with one character dropped (bare and inside x..y); oracle: Regex::new(escape(s)) compiles, find span == str::find span of the literal the host spells, Cow::Borrowed iff s has no special character; non-trivial = found occurrences of strings that needed escaping",
+                "all {} strings: every string of length <= {} over the 15 regex meta-characters plus [a,0,space,tab,e-acute,euro,emoji,-,&,~,a-grave (its UTF-8 ends in the byte A0),no-break space], and 1 065 long strings (an ASCII stretch of every length 0..70, a multi-byte character, special characters); each escaped string alone and embedded in the hosts {:?}; texts: s, s doubled, x+s+y for x in ['',a,\\,x,e-acute] and y in ['',a,$,y], s with one character dropped (bare and inside x..y); oracle: Regex::new(escape(s)) compiles, find span == str::find span of the literal the host spells, Cow::Borrowed iff s has no special character; non-trivial = found occurrences of strings that needed escaping",
                 total, max_len, HOSTS.iter().map(|h| h.0).collect::<Vec<_>>()
             ),
             exhaustive: true,
